@@ -463,5 +463,5 @@ func runC08(t *testing.T, sci interface{}) *Outcome {
 }
 
 func TestC08(t *testing.T) {
-	drive(t, &PropDef{ID: "C08", Gen: genC08, Decode: decodeInto[C08Scenario], Run: runC08, Checks: 60})
+	drive(t, &PropDef{ID: "C08", Gen: genC08, Decode: decodeInto[C08Scenario], Run: runC08, Checks: 60, CrashCapture: true})
 }
